@@ -101,6 +101,7 @@ def registry():
     if getattr(vclasses, "Companion", None) is not None:
         reg["Companion"] = vclasses.Companion
         reg["Coffer"] = vclasses.Coffer
+    reg.update({"Hand": vclasses.Hand, "Ledger": vclasses.Ledger, "Relic": vclasses.Relic})
     return reg
 
 
@@ -178,9 +179,21 @@ def methods_work(v):
 PROPS_SEEN = ("gold", "trust", "comfort", "openness", "coins", "current_weight", "discount", "sell_back_rate")
 
 
+def _answers(v):
+    try:
+        return observe(v.top() if isinstance(v, vclasses.Hand) else (v.total() if isinstance(v, vclasses.Ledger) else v.describe()))
+    except Exception as e:  # noqa
+        return f"<raises {type(e).__name__}>"
+
+
 def observe(v):
     """what a story can see of a value, independent of how it is serialised: public attributes, the stdlib's
     read-only properties, container structure (tuples read as lists)"""
+    if type(v) in (vclasses.Hand, vclasses.Ledger, vclasses.Relic):
+        # an object first, a container second: its class, what it holds, its attributes, what its methods answer
+        return {"__class__": type(v).__name__, "holds": observe(list(v)) if isinstance(v, list) else (observe(dict(v)) if isinstance(v, dict) else None),
+                "attrs": {k: observe(x) for k, x in vars(v).items() if not k.startswith("_")},
+                "answers": _answers(v)}
     if isinstance(v, (list, tuple)):
         return [observe(x) for x in v]
     if isinstance(v, (set, frozenset)):
@@ -289,6 +302,13 @@ def gen_stdlib_value(r, depth=0):
         return [gen_stdlib_value(r, depth + 1) for _ in range(r.randint(1, 3))]
     if depth < 2 and k < 0.45:
         return {kk: gen_stdlib_value(r, depth + 1) for kk in r.sample(["shop", "npc", "purse", "bag", "a"], r.randint(1, 3))}
+    if k < 0.52:
+        c_ = r.random()
+        if c_ < 0.4:
+            return vclasses.Hand([r.randint(0, 9) for _ in range(r.randint(0, 3))] + ([{"_type": "joker"}] if r.random() < 0.3 else []), r.choice(["Ann", "Bo"]))
+        if c_ < 0.7:
+            return vclasses.Ledger({kk: r.randint(0, 9) for kk in r.sample(["rent", "food", "_type", "x"], r.randint(0, 3))}, r.choice(["gold", "shells"]))
+        return vclasses.Relic(r.choice(["weapon", "dict", "string_repr", "Card"]), r.randint(0, 9))
     if k < 0.65:
         items = [{"name": r.choice(["Sword", "Gem", "Rope"]), "value": r.randint(0, 90), "weight": r.randint(0, 5)} for _ in range(r.randint(0, 3))]
         sh = Shop(items, r.choice([0.5, 0.25, 1.0]), r.choice([1.0, 0.5, 0.75, 0.9]))
